@@ -35,7 +35,7 @@ AllMethods == {"Str", "Strs", "Bytes", "Hex", "Bool", "Bools", "Int", "Ints", "I
                \* 64 KiB; Bytes: 45 000 bytes, 48 KiB and - with more fields after it - 64 KiB)
                "StrBig", "BytesBig", "StrLongEsc",      \* StrLongEsc: 12 000 bytes, a quote at the very start and a few more later
                \* arguments BUILT AT THE CALL SITE (slice literals of variables): no allocation as long as the methods do not let their parameters escape
-               "IntsInline", "StrsInline", "Floats64Inline", "BoolsInline", "TimesInline", "DursInline"}
+               "IntsInline", "StrsInline", "Floats64Inline", "BoolsInline", "TimesInline", "DursInline", "TypeInline"}
 
 \* ArrayM: Array with a pointer LogArrayMarshaler (the temporary *Array comes from and returns to the pool inside the call)
 \* methods that take an object from a pool (and must give it back, also when the event is filtered)
